@@ -1,6 +1,6 @@
 import sys
 from time import time
-from numpy import array, ndarray, mean, argmax
+from numpy import array, ndarray, mean, argmax, isfinite, where
 from numpy.fft import rfft, irfft
 from numpy import divmod as np_divmod
 
@@ -128,6 +128,9 @@ class Bounds:
 
         self.width = self.upper - self.lower
         self.n_bounds = self.width.size
+        # parameters with two finite limits (the others have at most one)
+        self.finite = isfinite(self.width)
+        self.all_finite = bool(self.finite.all())
 
     def validate_start_point(self, start: ndarray, error_source="Bounds"):
         if self.n_bounds != start.size:
@@ -148,15 +151,31 @@ class Bounds:
             )
 
     def reflect(self, theta: ndarray) -> ndarray:
-        q, rem = np_divmod(theta - self.lower, self.width)
-        n = q % 2
-        return self.lower + (1 - 2 * n) * rem + n * self.width
+        return self.reflect_momenta(theta)[0]
 
     def reflect_momenta(self, theta: ndarray) -> tuple[ndarray, ndarray]:
-        q, rem = np_divmod(theta - self.lower, self.width)
+        if self.all_finite:
+            q, rem = np_divmod(theta - self.lower, self.width)
+            n = q % 2
+            reflection = 1 - 2 * n
+            return self.lower + reflection * rem + n * self.width, reflection
+
+        # one-sided (or absent) limits: the periodic fold is only defined for a finite
+        # width, so a parameter with a single finite limit is mirrored in that limit
+        # and a parameter without finite limits is left as it is
+        width = where(self.finite, self.width, 1.0)
+        lower = where(self.finite, self.lower, 0.0)
+        q, rem = np_divmod(theta - lower, width)
         n = q % 2
         reflection = 1 - 2 * n
-        return self.lower + reflection * rem + n * self.width, reflection
+        folded = lower + reflection * rem + n * width
+        below = ~self.finite & (theta < self.lower)
+        above = ~self.finite & (theta > self.upper)
+        folded = where(self.finite, folded, theta)
+        folded = where(below, 2 * self.lower - theta, folded)
+        folded = where(above, 2 * self.upper - theta, folded)
+        reflection = where(self.finite, reflection, where(below | above, -1, 1))
+        return folded, reflection
 
     def inside(self, theta: ndarray) -> bool:
         return ((theta >= self.lower) & (theta <= self.upper)).all()
